@@ -11,4 +11,10 @@ def chars (s : String) : List Char := s.toList
 
 def boolStr (b : Bool) : String := if b then "true" else "false"
 
+/-- value of the first "k=v" field -/
+def kv (fs : List String) (k : String) : String :=
+  match fs.find? (fun f => f.startsWith (k ++ "=")) with
+  | some f => (f.drop (k.length + 1)).toString
+  | none => ""
+
 end Fosite.Driver
